@@ -12,6 +12,8 @@ RULE = ("models = behaviours of spec/Pep.tla whose solve requests a dimension-re
 
 def select(t, c):
     step, prop, name, detail = c
+    if prop == "ALL":
+        return sc.crash(t, c, PID, 'cvxpy')
     o = t["solves"][step - 1]
     if o["opts"]["heur"] == "none" or step != 1:
         return None
